@@ -760,6 +760,7 @@ async fn run(_tier: Tier) {
                     Harm::DenyExisting(2),
                     Harm::DenyExisting(3),
                     Harm::DenyExisting(4),
+                    Harm::DenyExisting(5),
                     Harm::DnameLoop,
                     Harm::HostileNsec3,
                 ],
@@ -827,7 +828,7 @@ async fn run(_tier: Tier) {
             match w.forged_denial_of_existing(qname, qtype, mode) {
                 Some(f) => {
                     r = f;
-                    sim::stat(["fault.nodata_with_the_names_own_nsec", "fault.nxdomain_with_the_names_own_nsec", "fault.nodata_at_child_apex_with_parent_side_nsec", "fault.nxdomain_with_the_nsec3_that_ends_at_the_name", "fault.nxdomain_with_a_child_zones_last_nsec"][mode as usize]);
+                    sim::stat(["fault.nodata_with_the_names_own_nsec", "fault.nxdomain_with_the_names_own_nsec", "fault.nodata_at_child_apex_with_parent_side_nsec", "fault.nxdomain_with_the_nsec3_that_ends_at_the_name", "fault.nxdomain_with_a_child_zones_last_nsec", "fault.nodata_at_an_alias_owner_with_the_aliass_own_nsec"][mode as usize]);
                     true
                 }
                 None => false,
